@@ -140,6 +140,44 @@ func init() {
 			}
 			r.Sample(desc)
 		}
+		// sizes and boundaries: outputs of many KiB through includes / regions / modifiers, counters beyond the
+		// small-integer range, deep loop nests — a buffer that is dropped or re-created above some size, or a value
+		// boxed outside 0..255, allocates only here
+		big := strings.Repeat("lorem <ipsum> \"dolor\" & sit amet/", 200)
+		scalePre := append(append([]c19Pre(nil), userPre...), c19Pre{kind: "set", name: "big", val: &big, ins: inspector.StaticInspector{}},
+			c19Pre{kind: "set", name: "lst", val: []string{"a", "b", "c", "d"}, ins: inspector.StringsInspector{}})
+		scale := map[string][]string{
+			"scale-include":   {"sub", `{% for i:=0; i<400; i++ %}<li>item {%= i %} of the list</li>{% endfor %}`, "main", `head{% include sub %}mid{% include sub %}tail`},
+			"scale-include-2": {"sub2", `{%= big %}{%h= big %}`, "sub1", `[{% include sub2 %}]`, "main", `{% for i:=0; i<3; i++ %}{% include sub1 %}{% endfor %}`},
+			"scale-regions":   {"main", `{% htmlescape %}{%= big %}{% jsonquote %}{%= big %}{% endjsonquote %}{% endhtmlescape %}{% urlencode %}{%= big %}{% endurlencode %}`},
+			"scale-mods":      {"main", `{%= big|htmlEscape|jsonQuote %}{%u= big %}{%jj= big %}{%a= big %}{%c= big %}{%J= big %}{%l= big %}`},
+			"scale-counters":  {"main", `{% counter c = 1000 %}{% for i:=250; i<270; i++ %}{% counter c+500 %}{%= c %},{%= i %};{% if c > 1200 %}x{% endif %}{% endfor %}{% ctx y = c %}{%= y %}`},
+			"scale-nest":      {"main", `{% for _, a := range lst %}{% for _, b := range lst %}{% for _, d := range lst %}{% for k, e := range user.Finance.History %}{%= a %}{%= b %}{%= d %}{%= k %}{%= e.Cost %}{% endfor %}{% endfor %}{% endfor %}{% endfor %}`},
+			"scale-raw":       {"main", strings.Repeat("static text with some length, ", 700) + "{%= user.Id %}"},
+		}
+		for name, defs := range scale {
+			dyntpl.VerifResetRegistry()
+			okc := true
+			for i := 0; i+1 < len(defs); i += 2 {
+				tree, err, pan := parseSafe([]byte(defs[i+1]), true)
+				if err != nil || pan != "" {
+					r.Internal("scale template does not parse: " + name)
+					okc = false
+					break
+				}
+				dyntpl.RegisterTplKey(defs[i], tree)
+			}
+			if !okc {
+				continue
+			}
+			held, reset, err := c19Measure("main", scalePre)
+			r.Count("scale:"+name, true)
+			r.Dist[fmt.Sprintf("scale allocs held=%v reset=%v", held, reset)]++
+			if held != 0 || reset != 0 {
+				r.Violate(fmt.Sprintf("allocs scale=%s held=%v reset=%v", name, held, reset), fmt.Sprintf("steady-state render of %s allocates (held ctx: %v, reset ctx: %v allocs/op)", name, held, reset),
+					map[string]any{"templates": defs, "allocs_held_ctx": held, "allocs_reset_ctx": reset, "render_error": fmt.Sprint(err)})
+			}
+		}
 		cfgs := []GenCfg{
 			{MaxDepth: 3, MaxNodes: 14, Loops: true, Switch: true, Ternary: true, Letters: true, PreSuf: true, Helpers: true, Region: true, Mods: true, BuiltinOnly: true},
 			{MaxDepth: 3, MaxNodes: 14, Loops: true, Ctl: true, BreakN: true, LazyBreak: true, CtxSet: true, Counter: true, Include: true, Exit: true, BuiltinOnly: true},
